@@ -18,7 +18,10 @@ import os
 import re
 import subprocess
 import sys
+import threading
 import time
+import traceback
+import concurrent.futures as cf
 
 from harness import fw
 from harness.fw import Err, catch, cstr, cval, clist, cpair, copt, cZ, cbool
@@ -197,15 +200,26 @@ def instant(value):
 
 
 class NowHook:
+    """webob.datetime_utils._now -> FIXED_NOW while at least one user is inside (re-entrant, thread-safe)"""
+    lock = threading.Lock()
+    depth = 0
+    old = None
+
     def __enter__(self):
         import webob.datetime_utils as du
-        self.du = du
-        self.old = du._now
-        du._now = lambda: DT(*FIXED_NOW)
+        with NowHook.lock:
+            if NowHook.depth == 0:
+                NowHook.old = du._now
+                du._now = lambda: DT(*FIXED_NOW)
+            NowHook.depth += 1
         return DT(*FIXED_NOW)
 
     def __exit__(self, *a):
-        self.du._now = self.old
+        import webob.datetime_utils as du
+        with NowHook.lock:
+            NowHook.depth -= 1
+            if NowHook.depth == 0:
+                du._now = NowHook.old
 
 
 # ----------------------------------------------------------------------------------------------
@@ -477,6 +491,16 @@ def is_valid_value(kind, v):
             if a is None or b is None:
                 return False
             return 0 <= a < b and (c is None or b <= c)
+        if kind == "auth":
+            if t == "str":
+                return "\n" not in x and "\r" not in x
+            if t == "auth":
+                if isinstance(x[1], str):
+                    return x[0] not in ("Digest", "WSSE", "HMACDigest", "GoogleLogin", "Cookie", "OpenID") and \
+                        not (x[0] == "Basic" and '"' in x[1]) and "\n" not in x[1] and " " not in x[0]
+                return x[0] in ("Digest", "WSSE", "HMACDigest", "GoogleLogin", "Cookie", "OpenID") and \
+                    all(re.match(r"\A[a-z]+\Z", k) and '"' not in w and "\n" not in w and "\r" not in w for k, w in dict(x[1]).items())
+            return False
         if kind in ("date", "date_delta"):
             if t == "dt":
                 d = dec(v)
@@ -806,6 +830,14 @@ def o_cc(case):
         try:
             if t == "get":
                 held = r.cache_control
+            elif t == "held_quiet":
+                # change the object the caller holds and do NOT look at request/response.cache_control afterwards
+                if held is not None:
+                    try:
+                        setattr(held, op[1], op[2])
+                    except AttributeError:
+                        pass
+                continue
             elif t in ("setp", "delp", "setp_held", "delp_held"):
                 attr = op[1]
                 directive, dkind, dside = CC_ATTRS[attr]
@@ -944,6 +976,8 @@ def rand_cc_op(rng, side):
     if t in ("setp", "setp_held"):
         a = rng.choice(attrs)
         v = rng.choice(CC_VALUES) if CC_ATTRS[a][1] == "value" else rng.choice([True, False])
+        if t == "setp_held" and rng.random() < 0.4:
+            return ["held_quiet", a, v]
         return [t, a, v]
     if t in ("delp", "delp_held"):
         return [t, rng.choice(attrs)]
@@ -1130,6 +1164,11 @@ def oracle_sweep(ctx):
                             "ops": json.loads(json.dumps(pre + [["hset", text, wf], mu, ["hset", text, wf]]))}
                     report(ctx, o_cc(case), case, "cache-control")
                     cnt += 1
+            for attr, v in (("max_age", 9), ("no_cache", True), ("no_store", True), ("max_age", None)):
+                case = {"o": "cc", "side": side, "init": None,
+                        "ops": json.loads(json.dumps([["hset", text, wf], ["get"], ["held_quiet", attr, v], ["hset", text, wf]]))}
+                report(ctx, o_cc(case), case, "cache-control")
+                cnt += 1
         for _ in range(m):
             case = {"o": "cc", "side": side, "init": r2.choice([None, "max-age=1", "no-cache, x=1", "garbage 1 2"]),
                     "ops": json.loads(json.dumps([rand_cc_op(r2, side) for _ in range(r2.randrange(1, 12))]))}
@@ -1142,7 +1181,7 @@ def oracle_sweep(ctx):
 # correspondence: Gallina models vs the real functions / attributes
 # ----------------------------------------------------------------------------------------------
 IMPORTS = ["Webob.Lib.PyStr", "Webob.Lib.C12_PyInt", "Webob.Lib.C12_Civil", "Webob.Model.C12_Headers",
-           "Webob.Model.C12_ByteRange", "Webob.Model.C12_Dates", "Webob.Model.C12_CacheControl", "Webob.Model.C12_Attrs"]
+           "Webob.Model.C12_ByteRange", "Webob.Model.C12_Dates", "Webob.Model.C12_CacheControl", "Webob.Model.C12_AuthCT", "Webob.Model.C12_Attrs"]
 CFG = {"anch": False, "zn": False}
 
 
@@ -1189,6 +1228,18 @@ def latin1(t):
 
 
 BIG = 10 ** 30
+
+
+def limit_long(texts, keep=2, longer=1000):
+    """Coq evaluates a 4000-digit input in about a second: keep only a few of them per correspondence"""
+    out, n = [], 0
+    for t in texts:
+        if len(t) > longer:
+            n += 1
+            if n > keep:
+                continue
+        out.append(t)
+    return out
 
 
 def nbytes(n):
@@ -1375,7 +1426,7 @@ def prepare_generators(ctx):
         texts = [t for t in total_texts(kind, 2, rng, ctx.scale(300, 3000)) if latin1(t) and len(t) < 200]
         GEN_TEXTS[kind] = texts
     for kind in ("range", "content_range"):
-        GEN_TEXTS[kind] += [t for t in SPECIAL[kind] if ascii_digits_only(t) and len(t) < 9000]
+        GEN_TEXTS[kind] += [t for t in SPECIAL[kind] if ascii_digits_only(t) and len(t) < 1000]
     GEN_VALUES["range"] = ([{"t": "tuple", "v": [a, b]} for a in (0, 1, 5, 10 ** 40) for b in (None, 0, 1, 6, 7, -1, 10 ** 40 + 5)]
                            + [{"t": "tuple", "v": [-5, None]}, {"t": "list", "v": [2, 9]}, {"t": "tuple", "v": [1, 2, 3]},
                               {"t": "tuple", "v": [4]}, {"t": "tuple", "v": []}, {"t": "tuple", "v": [-3, 4]}]
@@ -1437,7 +1488,7 @@ def corr_group1(ctx):
     # int() and str()
     texts = [t for t in total_texts("int", 3, rng, ctx.scale(400, 6000)) if latin1(t)]
     texts = texts[: ctx.scale(1500, 20000)]
-    texts = [t for t in texts if len(t) < 9000]
+    texts = limit_long([t for t in texts if len(t) < 9000], ctx.scale(4, 8))
     cases = [(cstr(t), bigfix(catch(int, t)), {"fn": "int", "text": t}) for t in texts]
     bad = ctx.corr("py_int", IMPORTS, "(fun s => match py_int s with Some z => vint z | None => VErr ValueError end)", cases,
                    in_type="str")
@@ -1503,7 +1554,7 @@ def corr_group2(ctx):
         texts = [t for t in total_texts(kind, 4, rng, ctx.scale(600, 8000)) if ascii_digits_only(t) and len(t) < 9000]
         rng.shuffle(texts)
         head = [t for t in SPECIAL[kind] if ascii_digits_only(t) and len(t) < 9000]
-        texts = head + texts[: ctx.scale(1500, 30000)]
+        texts = limit_long(head + texts[: ctx.scale(1500, 30000)], ctx.scale(2, 6))
         cases = [(cstr(t), groups(rx, t), {"fn": "rx_" + kind, "text": t}) for t in texts]
         bad = ctx.corr("rx_" + kind, IMPORTS, fn, cases, in_type="str")
         for i in bad[:5]:
@@ -1609,7 +1660,7 @@ def corr_group3(ctx):
     GEN_TEXTS["date"] = [canonical_shaped(rng) for _ in range(400)] + ["", "abc", "GMT"]
     GEN_TEXTS["date_delta"] = GEN_TEXTS["date"] + ["0", "120", "-5", " 7 ", "1_0", "99999999999999999999", "-99999999999999999999",
                                                    "86399999999999", "86400000000000", "253370764800", "253370800000", "-63000000000",
-                                                   "9" * 4301, "+3"]
+                                                   "+3"]
     vals = [v for v in date_values(rng, 300, [1970, 2000, 9999]) if v["t"] in ("dt", "date", "int")]
     vals += [{"t": "td", "v": x} for x in (0, 1, -1, 3600, 86400 * 365, -86400)]
     vals += [{"t": "str", "v": x} for x in ("Mon, 01 Jan 2001 00:00:00 GMT", "tomorrow", "a\nb", "")]
@@ -1775,7 +1826,7 @@ def cc_corr_op(rng, side):
     while True:
         o = rand_cc_op(rng, side)
         t = o[0]
-        if t in ("pdel", "pupdate", "psetdefault"):
+        if t in ("pdel", "pupdate", "psetdefault", "held_quiet"):
             continue
         if side == "resp" and t in ("setp_held", "delp_held", "ppop") and t != "ppop":
             continue
@@ -1793,10 +1844,10 @@ def corr_group4(ctx):
     rng = ctx.sub_rng("corr4")
     texts = [t for t in total_texts("cache_control", 3, rng, ctx.scale(500, 8000)) if latin1(t) and len(t) < 9000]
     rng.shuffle(texts)
-    texts = [t for t in SPECIAL["cache_control"] if latin1(t)] + [c[0] for c in CC_TEXTS] + texts[: ctx.scale(1200, 20000)]
+    texts = limit_long([t for t in SPECIAL["cache_control"] if latin1(t)] + [c[0] for c in CC_TEXTS] + texts[: ctx.scale(1200, 20000)])
     cases = [(cstr(t), [[m.group(1), m.group(2) or m.group(3) or ""] for m in cachecontrol.token_re.finditer(t)],
               {"fn": "token_re.finditer", "text": t}) for t in texts]
-    bad = ctx.corr("token_re", IMPORTS, "(fun s => VList (map (fun nv => VList [VStr (fst nv); VStr (snd nv)]) (tokens (S (length s)) s)))",
+    bad = ctx.corr("token_re", IMPORTS, "(fun s => VList (map (fun nv => VList [VStr (fst nv); VStr (snd nv)]) (tokens (S (@List.length N s)) s)))",
                    cases, in_type="str")
     for i in bad[:5]:
         ctx.broken.append("correspondence token_re: scanner model and re disagree on %r" % cases[i][2]["text"][:100])
@@ -1838,16 +1889,184 @@ def corr_group4(ctx):
             disagreement(ctx, "cc-binding-" + side, cases[i][2], [cases[i][2]])
 
 
+# ---- credentials and Content-Type
+def run_ct_history(init, ops):
+    Request, Response = webob()
+    r = Response()
+    r.headerlist = [tuple(p) for p in init]
+    out = []
+    for o in ops:
+        t = o[0]
+        if t == "get":
+            res = canon(catch(getattr, r, o[1]))
+        elif t == "set":
+            res = catch(setattr, r, o[1], dec(o[2]))
+        elif t == "del":
+            res = catch(delattr, r, o[1])
+        elif t == "raw":
+            res = None
+            r.headerlist.append((o[1], o[2]))
+        elif t == "rawdel":
+            res = None
+            r.headerlist[:] = [(k, v) for k, v in r.headerlist if k.lower() != "content-type"]
+        out.append([res, [list(kv) for kv in r.headerlist]])
+    return out
+
+
+def ctop(o):
+    a = {"charset": "T_charset", "content_type": "T_content_type", "content_type_params": "T_params"}
+    t = o[0]
+    if t == "get":
+        return "(TGet %s)" % a[o[1]]
+    if t == "set":
+        v = o[2]
+        if v["t"] == "dict":
+            return "(TSet %s (PAuth [] %s))" % (a[o[1]], clist(cpair(cstr(k), cstr(w)) for k, w in v["v"].items()))
+        return "(TSet %s %s)" % (a[o[1]], cpyv(v))
+    if t == "del":
+        return "(TDel %s)" % a[o[1]]
+    if t == "raw":
+        return "(TRaw %s %s)" % (cstr(o[1]), cstr(o[2]))
+    return "TRawDel"
+
+
+def corr_group5(ctx):
+    from webob import descriptors, response as wresp, request as wreq
+    rng = ctx.sub_rng("corr5")
+    # _rx_auth_param.findall / parse_auth
+    texts = [t for t in total_texts("auth", 4, rng, ctx.scale(800, 10000)) if latin1(t) and len(t) < 2000]
+    rng.shuffle(texts)
+    texts = [t for t in SPECIAL["auth"] if latin1(t)] + texts[: ctx.scale(1500, 30000)]
+    cases = [(cstr(t), [list(m) for m in descriptors._rx_auth_param.findall(t)], {"fn": "_rx_auth_param.findall", "text": t}) for t in texts]
+    bad = ctx.corr("auth_params", IMPORTS, "(fun s => dict_val (auth_params (S (@List.length N s)) s))", cases, in_type="str")
+    for i in bad[:5]:
+        ctx.broken.append("correspondence auth_params: scanner model and re disagree on %r" % cases[i][2]["text"][:100])
+    cases = [(cstr(t), canon(catch(descriptors.parse_auth, t)), {"fn": "parse_auth", "text": t}) for t in texts]
+    bad = ctx.corr("parse_auth", IMPORTS, "(fun s => match parse_auth (Some s) with Ok v => v | Raise e => VErr e end)", cases, in_type="str")
+    for i in bad[:5]:
+        disagreement(ctx, "parse_auth", cases[i][2], [{"o": "total", "side": "req", "attr": "authorization", "text": cases[i][2]["text"]}])
+    # CHARSET_RE.search and _PARAM_RE.finditer
+    texts = [t for t in total_texts("content_type", 4, rng, ctx.scale(800, 10000)) if latin1(t) and len(t) < 2000]
+    rng.shuffle(texts)
+    texts = [t for t in SPECIAL["content_type"] if latin1(t)] + texts[: ctx.scale(1500, 30000)]
+
+    def cs(t):
+        m = descriptors.CHARSET_RE.search(t)
+        return None if m is None else [t[:m.start()], m.group(1), t[m.end():]]
+
+    cases = [(cstr(t), cs(t), {"fn": "CHARSET_RE.search", "text": t}) for t in texts]
+    bad = ctx.corr("charset_re", IMPORTS, "(fun s => match charset_re s with None => VNone | Some (a, b, c) => VList [VStr a; VStr b; VStr c] end)",
+                   cases, in_type="str")
+    for i in bad[:5]:
+        ctx.broken.append("correspondence charset_re: scanner model and re disagree on %r" % cases[i][2]["text"][:100])
+    cases = [(cstr(t), [[m.group(1), m.group(2) or m.group(3) or ""] for m in wresp._PARAM_RE.finditer(t)], {"fn": "_PARAM_RE.finditer", "text": t})
+             for t in texts]
+    bad = ctx.corr("param_re", IMPORTS, "(fun s => dict_val (param_scan (S (@List.length N s)) s))", cases, in_type="str")
+    for i in bad[:5]:
+        ctx.broken.append("correspondence param_re: scanner model and re disagree on %r" % cases[i][2]["text"][:100])
+    # Request content_type / charset
+    Request, Response = webob()
+
+    def qobs(env, newv):
+        r = Request.blank("/")
+        r.environ.pop("CONTENT_TYPE", None)
+        if env is not None:
+            r.environ["CONTENT_TYPE"] = env
+        a = [r.content_type, catch(lambda: r.charset)]
+        r.content_type = newv
+        return a + [r.environ.get("CONTENT_TYPE")]
+
+    cases = []
+    for t in [None] + texts[: ctx.scale(600, 8000)]:
+        nv = rng.choice([None, "text/plain", "a/b; x=1", "", "text/html;charset=latin-1"])
+        cases.append((cpair(copt(None if t is None else cstr(t)), copt(None if nv is None else cstr(nv))), qobs(t, nv),
+                      {"fn": "Request.content_type/charset", "env": t, "new": nv}))
+    bad = ctx.corr("req-content-type", IMPORTS, "(fun c => VList [qct_get (fst c); qcharset_get (fst c); ostr (qct_set (snd c) (fst c))])",
+                   cases, in_type="(option str * option str)")
+    for i in bad[:5]:
+        disagreement(ctx, "req-content-type", cases[i][2],
+                     [{"o": "total", "side": "req", "attr": "charset", "text": cases[i][2]["env"]},
+                      {"o": "total", "side": "req", "attr": "content_type", "text": cases[i][2]["env"]}])
+    # Response charset / content_type / content_type_params histories
+    cts = [t for t in texts if "\n" not in t][:200] + ["text/html", "text/html; charset=utf-8", "application/json", 'a/b; x="1"; y=2']
+    vals = {"charset": [{"t": "str", "v": v} for v in ["utf-8", "latin-1", "x", ""]] + [{"t": "none"}],
+            "content_type": [{"t": "str", "v": v} for v in ["text/html", "text/plain", "application/json", "application/xml", "image/svg+xml",
+                                                            "application/atom+xml", "text/x; charset=a", "a/b; x=y", "", "image/png+xml"]]
+            + [{"t": "none"}],
+            "content_type_params": [{"t": "dict", "v": d} for d in [{"a": "x"}, {"b": "p q", "a": "1"}, {"c": 'q"r'}, {"charset": "utf-8"},
+                                                                    {}, {"B": ""}, {"a": "x\n"}, {"z": "\xe9"}]] + [{"t": "none"}]}
+    cases = []
+    for _ in range(ctx.scale(500, 6000)):
+        init = []
+        if rng.random() < 0.8:
+            init = [("Content-Type", rng.choice(cts))]
+            if rng.random() < 0.1:
+                init.append(("content-type", rng.choice(cts)))
+        ops = []
+        for _ in range(rng.randrange(1, 6)):
+            a = rng.choice(["charset", "content_type", "content_type_params"])
+            c = rng.random()
+            if c < 0.35:
+                ops.append(["get", a])
+            elif c < 0.7:
+                ops.append(["set", a, rng.choice(vals[a])])
+                ops.append(["get", a])
+            elif c < 0.85:
+                ops.append(["del", a])
+            elif c < 0.95:
+                ops.append(["raw", rng.choice(["Content-Type", "content-type"]), rng.choice(cts)])
+            else:
+                ops.append(["rawdel"])
+        out = run_ct_history(init, ops)
+        cases.append((cpair(clist(cpair(cstr(k), cstr(v)) for k, v in init) if init else "(@nil (str * str))",
+                            clist(ctop(o) for o in ops)), out, {"side": "resp", "init": init, "ops": ops}))
+    bad = ctx.corr("resp-content-type", IMPORTS, "(fun c => run_ct (fst c) (snd c))", cases, in_type="(pairs * list ctop)")
+    for i in bad[:5]:
+        checks = []
+        for o in cases[i][2]["ops"]:
+            if o[0] == "raw":
+                for a in ("charset", "content_type", "content_type_params"):
+                    checks.append({"o": "total", "side": "resp", "attr": a, "text": o[2]})
+        disagreement(ctx, "resp-content-type", cases[i][2], checks)
+    # credentials through the attribute machines
+    GEN_TEXTS["auth"] = texts_auth = [t for t in SPECIAL["auth"] if latin1(t)] + [t for t in total_texts("auth", 2, rng, 300) if latin1(t)][:300]
+    GEN_VALUES["auth"] = ([v for v in valid_values("auth", rng, 60, 0) if latin1(json.dumps(v, ensure_ascii=False))]
+                          + [{"t": "str", "v": "a\nb"}, {"t": "auth", "v": ["Digest", {"realm": "a\nb"}]}])
+    m = ctx.scale(300, 4000)
+    cases = []
+    for _ in range(m):
+        init, ops = gen_history(rng, "resp", ["www_authenticate", "www_authenticate", "server"], 5)
+        out = run_history("resp", init, ops)
+        cases.append((cpair("(@nil (str * str))", clist(cop("R", o) for o in ops)), out, {"side": "resp", "ops": ops}))
+    bad = ctx.corr("resp-attrs-5", IMPORTS, "(fun c => run_resp %s (fst c) (snd c))" % ccfg(), cases, in_type="(pairs * list (hop rattr))")
+    for i in bad[:5]:
+        disagreement(ctx, "resp-attrs-5", cases[i][2], derived_checks("resp", cases[i][2]["ops"]))
+    cases = []
+    watch = clist(cstr(k) for k in WATCH)
+    for _ in range(m):
+        init, ops = gen_history(rng, "req", ["authorization", "authorization", "pragma"], 5)
+        out = run_history("req", init, ops)
+        cases.append((cpair("(@nil (str * str))", clist(cop("Q", o) for o in ops)), out, {"side": "req", "ops": ops, "init": []}))
+    bad = ctx.corr("req-attrs-5", IMPORTS, "(fun c => run_req %s %s (fst c) (snd c))" % (ccfg(), watch), cases, in_type="(pairs * list (hop qattr))")
+    for i in bad[:5]:
+        disagreement(ctx, "req-attrs-5", cases[i][2], derived_checks("req", cases[i][2]["ops"]))
+
+
 def run(ctx):
     ctx.build(["Props/C12.vo"])
     table_check(ctx)
     source_cfg(ctx)
     prepare_generators(ctx)
-    corr_group1(ctx)
-    corr_group2(ctx)
-    corr_group3(ctx)
-    corr_group4(ctx)
-    oracle_sweep(ctx)
+    # the correspondences spend their time in coqc subprocesses, the oracle in this process: run them side by side
+    # (every part draws from its own ctx.sub_rng stream, so the cases do not depend on the scheduling)
+    parts = [corr_group1, corr_group2, corr_group3, corr_group4, corr_group5, oracle_sweep]
+    with cf.ThreadPoolExecutor(len(parts)) as ex:
+        futs = [(f.__name__, ex.submit(f, ctx)) for f in parts]
+        for name, fu in futs:
+            try:
+                fu.result()
+            except Exception:  # noqa
+                ctx.broken.append("check machinery raised in %s: %s" % (name, traceback.format_exc()[-1200:]))
     ctx.extra["rule"] = ("correspondence: distinct generated inputs (adversarial texts / random attribute histories) per model "
                          "function; oracle totality: every attribute x (hand-picked adversarial texts + every concatenation of "
                          "<= 3-4 tokens of the field's adversarial alphabet + mutated/random longer texts), counted non-trivial "
